@@ -2,5 +2,5 @@
 from mc import master, ops, oracles
 from mc.props import _std
 
-_std.install(globals(), 'C03', 'model_checking', [oracles.oracle_ecma119], _std.default_bounds(),
+_std.install(globals(), 'C03', 'model_checking', [oracles.oracle_ecma119], _std.default_bounds(big=True),
              ['independent decoder mc/readers/r119.py is trusted base'] + ['alphabet sigma1 of mc/ops.py and the depth bounds listed in the evidence'])
